@@ -18,6 +18,9 @@ use std::panic::{catch_unwind, AssertUnwindSafe};
 
 mod props;
 
+/// message and location of the most recent panic (set by the panic hook; used when a whole sweep aborts)
+pub static LAST_PANIC: std::sync::Mutex<String> = std::sync::Mutex::new(String::new());
+
 pub struct Cases {
     pub cases: BufWriter<std::fs::File>,
     pub imp: BufWriter<std::fs::File>,
@@ -143,7 +146,11 @@ pub fn join<T: std::fmt::Display, I: IntoIterator<Item = T>>(it: I) -> String {
 }
 
 fn main() {
-    std::panic::set_hook(Box::new(|_| {}));
+    std::panic::set_hook(Box::new(|info| {
+        if let Ok(mut m) = LAST_PANIC.try_lock() {
+            *m = format!("{info}").chars().take(300).collect();
+        }
+    }));
     let args: Vec<String> = std::env::args().collect();
     let mode = args.get(1).map(String::as_str).unwrap_or("");
     match mode {
